@@ -475,7 +475,14 @@ func (p *parser) InstantiateGenericFunction(genericFunc *ast.FuncDecl, genericTy
 		genericFunc.Generic.Instantiations[genericModule] = slices.DeleteFunc(genericFunc.Generic.Instantiations[genericModule], func(f *ast.FuncDecl) bool { return f == &decl })
 	}
 
-	return &decl, errorCollector.Errors
+	// only errors make the instantiation fail, a warning in the body (e.g. for '...') does not
+	errs := make([]ddperror.Error, 0, len(errorCollector.Errors))
+	for _, err := range errorCollector.Errors {
+		if err.Level == ddperror.LEVEL_ERROR {
+			errs = append(errs, err)
+		}
+	}
+	return &decl, errs
 }
 
 func (p *parser) generateGenericContext(fun ast.GenericContext, params []ast.ParameterInfo, genericTypes map[string]ddptypes.Type) ast.GenericContext {
